@@ -24,8 +24,10 @@ class Ctx:
         self.cat = defs.catalogue()
         self.reach = [e for e in self.cat if e["reachable"]]
 
+    escalated = False   # set when an equivalence theorem between the code as written and the model stopped checking
+
     def n(self, quick, thorough):
-        return thorough if self.tier == "thorough" else quick
+        return thorough if (self.tier == "thorough" or self.escalated) else quick
 
 
 class Result:
